@@ -34,7 +34,8 @@ ASSUMPTIONS = ["commands queued during the outage may legitimately precede the r
 REQUIRED_OBS = ["reconnects_judged", "refresh_requests_at_open", "converged_after_change",
                 "unchanged_refresh_silent", "poll_requests_predicted_and_seen",
                 "poll_restarted_by_status", "poll_after_reconnection", "flapping_reconnections",
-                "refused_attempts_before_reconnection", "initialised_after_init_gave_up"]
+                "refused_attempts_before_reconnection", "initialised_after_init_gave_up",
+                "reconnections_with_commands_pending"]
 SOAK = True   # also judged by the whole-run monitors of the soak sessions (vf/soak.py)
 BUDGET = {"quick": 100, "thorough": 1500}
 
@@ -65,6 +66,16 @@ def cases(tier, seed):
             yield {"k": "reconnect", "gen": gen, "how": how, "tau": 1.0, "outage": 0.5,
                    "delta": "all", "seed": rnd.randrange(1 << 30), "err": None, "flaps": 0,
                    "refusals": refusals}
+        # the application keeps issuing commands while the link is down (valid ones, and ones
+        # no frame has room for): they are held and go out on the next connection - together
+        # with the two refresh requests
+        for pending in (["ok"], ["ok"] * 4, ["ok"] * 9, ["ok"] * 10, ["s300"], ["nan"], ["inf"],
+                        ["inf", "inf"], ["ok", "inf", "ok"], ["s300", "nan", "inf", "ok"]):
+            for how in ("fin", "rst"):
+                yield {"k": "reconnect", "gen": gen, "how": how, "tau": 1.0,
+                       "outage": rnd.choice([1.9, 2.0, 5.0]), "delta": "all",
+                       "seed": rnd.randrange(1 << 30), "err": None, "flaps": 0,
+                       "pending": pending}
         for outage in OUTAGES:
             for delta in ("none", "one", "all"):
                 yield {"k": "reconnect", "gen": gen, "how": "hb", "tau": 0.0, "outage": outage,
@@ -129,7 +140,7 @@ def run_reconnect(case):
         knobs = C.Knobs()
         if how == "hb":
             knobs = C.Knobs(answer_heartbeat=lambda n, t: 0.0 if n == 1 or t > 400 else None)
-        if how == "wfail":
+        if how == "wfail" or case.get("pending"):
             # the command that carries the write fault is re-sent after the reconnection; it
             # must not itself change the console state in the "unchanged" scenarios
             knobs = C.Knobs(apply_commands=False)
@@ -213,6 +224,21 @@ def run_reconnect(case):
         await quiesce(loop)
         mutate(w, rnd, case["delta"])
         out["sub_mark"] = log.mark()
+        n_ok = 0
+        for i, kind in enumerate(case.get("pending") or []):
+            zs = [z for ac in w.at.air_conditioners for z in ac.zones if z.has_temp_sensor]
+            try:
+                if kind == "ok":
+                    n_ok += 1
+                    await w.at.air_conditioners[0].set_fan_speed(
+                        w.at.air_conditioners[0].supported_fan_speeds[
+                            i % len(w.at.air_conditioners[0].supported_fan_speeds)])
+                elif zs:
+                    await zs[0].set_target_temperature(
+                        {"s300": 300.0, "nan": float("nan"), "inf": float("inf")}[kind])
+            except (ValueError, ArithmeticError) as e:
+                log.add("API.raise", name=kind, exc=repr(e))
+        out["pending_ok"] = n_ok
         await asyncio.sleep(case["outage"] + 2.5 + 2.0 * case.get("refusals", 0))
         await quiesce(loop)
         c2 = net.current()
@@ -250,10 +276,19 @@ def run_reconnect(case):
     kinds_at_open = [k for t, k in out["reqs"] if abs(t - out["open_t"]) < 1e-9]
     missing = [k for k in ("ac_status_request", "zone_status_request") if k not in kinds_at_open]
     if missing:
-        v("refresh-request-missing-at-reconnect", missing=missing, seen=out["reqs"][:6],
-          open_at=out["open_t"])
+        # (with ten commands held the buffer is full when the connected notification asks for
+        # the refresh: recorded defect D15, a mechanism of its own)
+        full = out.get("pending_ok", 0) >= 10
+        v("refresh-request-missing-at-reconnect" + (":ten-commands-held" if full else ""),
+          missing=missing, seen=out["reqs"][:6], open_at=out["open_t"])
     else:
         obs["refresh_requests_at_open"] = 1
+    if case.get("pending"):
+        obs["reconnections_with_commands_pending"] = 1
+        got = sum(1 for t, k in out["reqs"] if k == "ac_control")
+        if got != out["pending_ok"]:
+            v("command-held-during-the-outage-not-sent-once", sent=got, held=out["pending_ok"],
+              seen=[k for t, k in out["reqs"]][:16])
     if out["diff"]:
         v("model-not-converged-after-reconnect", diff=out["diff"])
     elif case["delta"] != "none":
